@@ -8,49 +8,49 @@ ROOT = os.path.dirname(os.path.abspath(__file__))
 
 P = {
  "C01": ("exploration", "3/C01", "reference model + differential",
-   "Generated pairs of versions (struct-built and parsed) are ordered by version.Compare and by an independent comparator written from Policy 5.6.12 (math/big digit runs); a sample is also decided by dpkg's own perl and C implementations. Random search with neighbour-biased generation; no proof of absence.",
+   "Generated pairs of versions (struct-built and parsed) are ordered by version.Compare and by an independent comparator written from Policy 5.6.12 (math/big digit runs); a sample is also decided by dpkg's own perl and C implementations; one long process history (0.6-4 million fresh and repeated versions) and concurrent batches under the race detector. Random search with neighbour-biased generation; no proof of absence.",
    "reference comparator is my reading of Policy 5.6.12, cross-validated against Dpkg::Version and dpkg --compare-versions when present (skipped, and counted, when absent)"),
  "C02": ("exploration", "3/C02", "algebraic laws over generated pools",
    "Reflexivity, antisymmetry of sign, transitivity and congruence of equivalents are checked on triples drawn from small pools rich in equal-but-differently-spelled versions; sort.Sort(version.Slice) is checked for termination (bounded Less calls), permutation and total non-decrease.",
    "laws are checked on sampled triples/slices only"),
  "C03": ("exploration", "3/C03", "renderer-inverse + rejection classes + round trip",
-   "Policy-grammar strings must parse to the parts the renderer used; each near-miss class named by the statement must be rejected; every accepted string (grammar, edits, soup, native fuzz) must survive String/MarshalControl/MarshalText/JSON round trips.",
+   "Policy-grammar strings must parse to the parts the renderer used; each near-miss class named by the statement must be rejected; every accepted string (grammar, edits, soup, native fuzz) must survive String/MarshalControl/MarshalText/JSON round trips; one long process history of parses with byte-identical and re-padded repeats at lags up to 120 000 steps.",
    "expected parts come from the generator's renderer, not from the parser"),
  "C04": ("exploration", "3/C04", "grammar-directed generation, AST equality",
-   "Dependency ASTs (bounded-exhaustive small shapes x spacing schemes, random large ones) are rendered by an independent renderer and must parse back to exactly the AST; single-corruption malformed fields must return (nil, error).",
+   "Dependency ASTs (bounded-exhaustive small shapes x spacing schemes, random large ones) are rendered by an independent renderer and must parse back to exactly the AST; single-corruption malformed fields (22 classes) must return (nil, error); one long process history of fresh and repeated fields, old results looked at again.",
    "legal spacing = spaces, tabs, newlines where Policy/dpkg allow whitespace; generator soundness cross-checked against Dpkg::Deps when present"),
  "C05": ("exploration", "3/C05", "parse-render-parse fixpoint",
-   "For every accepted string (grammar renderings, byte-level mutations, raw bytes, native fuzz in thorough) String() must re-parse to a structurally identical value and be a fixpoint; architecture names must keep their (abi, os, cpu) triple through parse-render-parse.",
+   "For every accepted string (grammar renderings, byte-level mutations, raw bytes, native fuzz in thorough) String() must re-parse to a structurally identical value and be a fixpoint; architecture names (dpkg's CPU x OS x ABI tables included) must keep their (abi, os, cpu) triple through parse-render-parse; concurrent batches under the race detector.",
    "structural equality treats nil and empty slices alike"),
  "C06": ("exploration", "3/C06", "bounded-exhaustive abstraction + reference matcher",
    "All 1 820 (concrete, pattern) pairs of the three-generic-names abstraction and all short lists over it are swept exhaustively against a 10-line matcher; possibilities selection and SatisfiedBy are checked on generated ASTs / (op, N, V) triples against the C01 reference order.",
    "the abstraction (each component 'any' or one of three names) is exhaustive up to renaming, as the property states"),
  "C07": ("exploration", "3/C07", "document model, reader agreement, invariant",
-   "deb822 documents are rendered from a model (comments, continuations, ' .', CRLF, blank runs, missing final newline); All(), Next(), Unmarshal(&[]T) and Decoder must all return the model; the keys/Order invariant is checked on mutated documents and raw bytes (native fuzz in thorough).",
+   "deb822 documents are rendered from a model (comments, continuations, ' .', CRLF, blank runs, missing final newline); All(), Next(), Unmarshal(&[]T) and Decoder must all return the model; reused variables, readers asked again after EOF and results kept across a second decode are part of the model check; the keys/Order invariant (also of Paragraph.Update) is checked on mutated documents and raw bytes (native fuzz in thorough).",
    "model encodes the reader's documented value convention (continuation values end in a newline)"),
  "C08": ("exploration", "3/C08", "write-read identity, idempotence",
-   "Paragraphs with line-sequence values are written and read back (same order, same logical lines, no blank line inside a paragraph); read-write-read cycles must be stable; encoder output must read back with the same paragraph count.",
+   "Paragraphs with line-sequence values are written and read back (same order, same logical lines, no blank line inside a paragraph); read-write-read cycles must be stable; encoder output must read back with the same paragraph count; independent goroutines write their own paragraphs at the same time through yielding writers under the race detector.",
    "values compared up to one trailing newline, as the statement says"),
  "C09": ("exploration", "3/C09", "marshal-unmarshal identity + pass-through model",
    "A family of probe structs covering every supported kind/tag is round-tripped; optional/required emission rules are checked on the emitted paragraph; unknown fields must pass through in order while known fields reflect current values; Marshal never panics.",
    "values drawn from each kind's representable domain"),
  "C10": ("exploration", "3/C10", "per-kind document models",
-   "Models of .dsc, .changes, debian/control, Packages, Sources and DEBIAN/control are rendered in Debian layout (folded / single-line) and the typed parsers and accessors must return exactly the model.",
+   "Models of .dsc, .changes, debian/control, Packages, Sources and DEBIAN/control are rendered in Debian layout (folded / single-line) and the typed parsers and accessors (BestChecksums over a reused variable among them) must return exactly the model; indexes of up to 4100 paragraphs.",
    "layouts follow the fixtures of the suite and dpkg tool output"),
  "C11": ("fault_enumeration", "3/C11", "exhaustive single-byte faults on clearsigned documents",
    "For generated clearsigned documents every single-byte substitution, deletion, insertion and truncation plus splices and signature swaps are enumerated: reading must fail or return exactly the signed paragraphs with the true signer from the keyring.",
    "golang.org/x/crypto/openpgp is trusted to verify; key material comes from crypto/rand and does not affect verdicts"),
  "C12": ("exploration", "3/C12", "differential against crypto/*",
-   "Hashing writers/readers are driven with generated chunkings and compared against crypto/md5, sha1, sha256, sha512; verifiers must accept iff the digest under the entry's own algorithm matches, for entries parsed from fields, via BestChecksums and from hashers.",
-   "md5/sha1 entries are outside Verifier()'s documented domain (it terminates the process) and are excluded by construction"),
+   "Hashing writers/readers are driven with generated chunkings and compared against crypto/md5, sha1, sha256, sha512; verifiers must accept iff the digest under the entry's own algorithm matches, for entries parsed from fields, via BestChecksums and from hashers (all four algorithms); digests and entries stay what they were after later calls; concurrent batches under the race detector.",
+   "md5/sha1 entries parsed from Files / Checksums-Sha1 fields are not named by the statement and not generated; entries built from md5/sha1 hashers are (F52)"),
  "C13": ("exploration", "3/C13", "member-list model",
-   "ar archives are rendered from a member model by an independent writer; iteration must return exactly the model, readers must be independent, re-readable and exact, and end-of-archive must be reported.",
+   "ar archives are rendered from a member model by an independent writer; iteration must return exactly the model, readers must be independent, re-readable and exact, and end-of-archive must be reported; archives of up to 24 000 members, members ending on the 64 KiB mark, names other ar dialects give a meaning to.",
    "archives follow the common ar layout (60-byte headers, even padding)"),
  "C14": ("exploration", "3/C14", "package model x 36 codec pairs + dpkg-deb",
    "Generated .deb packages over all 6x6 compression pairs (plus real dpkg-deb builds when present) must load with control fields, extensions, member index and data tar equal to the model; bad format versions and missing members are rejected; loads are deterministic.",
    "xz/bzip2 members are produced by the system tools; skipped and counted when absent"),
  "C15": ("exploration", "3/C15", "structured corruption + step-bounded reader",
-   "Corrupted and truncated archives (every header column, every truncation offset) and raw bytes (native fuzz in thorough) are read through a counting ReaderAt: no panic, bounded steps, returned members carry the header magic, non-negative size and exactly Size bytes; repeated loads agree.",
+   "Corrupted and truncated archives (every header column, every truncation offset) and raw bytes (native fuzz in thorough) are read through a counting ReaderAt: no panic, bounded steps, returned members carry the header magic, non-negative size and exactly Size bytes; repeated loads agree (error text included); tar-level hostile control members (sparse, size-claiming, half a million continuation lines) must neither hang nor panic.",
    "third-party decompressors on hostile streams are outside the claim (property text)"),
  "C16": ("fault_enumeration", "3/C16", "exhaustive byte faults and decoy members on signed .debs",
    "For generated debsig-signed packages every single-byte corruption of the signed members and the signature and every decoy control.*/data.* insertion is enumerated and loaded repeatedly: load or verification must fail, and whenever both succeed the control data must be the signed one.",
@@ -59,7 +59,7 @@ P = {
    "Changelogs rendered from an entry model must parse to exactly the model; every prefix of generated changelogs must yield all complete entries or an error; malformed header/trailer/date classes must not silently shorten the list.",
    "generator soundness cross-checked with dpkg-parsechangelog when present"),
  "C18": ("exploration", "3/C18", "totality, determinism, value-xor-error, race detector",
-   "Arbitrary and grammar-mutated bytes are fed to every parser entry point under a watchdog: no panic, no hang, never a usable value together with an error, identical results on repetition and under 32 concurrent goroutines with -race.",
+   "Arbitrary and grammar-mutated bytes are fed to every parser entry point under a watchdog: no panic, no hang, never a usable value together with an error, identical results (error text included) on repetition, under another local time zone and under 32 concurrent goroutines with -race.",
    "the Go scheduler is not controlled; the race detector reports races that occur on exercised paths"),
  "C19": ("exploration", "3/C19", "graph oracle",
    "Random build-dependency graphs are rendered as real .dsc text, parsed and ordered; acyclic graphs must give a permutation respecting every model edge, cyclic ones an error, and repeated runs the same outcome.",
